@@ -126,7 +126,8 @@ class Registry:
         d = c.loops_decl.get(k)
         if d is None:
             return None
-        out = {'modifies': tuple(d.get('modifies', ())), 'elem': d.get('elem', 'bytes'), 'lists': dict(d.get('lists', {}))}
+        out = {'modifies': tuple(d.get('modifies', ())), 'elem': d.get('elem', 'bytes'), 'lists': dict(d.get('lists', {})),
+               'locals': tuple(d.get('locals', ()))}
         for n in ('inv', 'variant'):
             f = d.get(n)
             if f is not None:
